@@ -138,7 +138,7 @@ func init() {
 										continue
 									}
 									c := scfg{mode: m, unix: unix, pol: pol, move: move, ender: ender, writes: ws, vec: vec, p: 1, d: 1}
-									if !thorough && m == ekit.LT && !vec && (ender == "close" || ender == "rst") {
+									if !thorough && m == ekit.LT && !vec && !move && ender == "close" {
 										c.p = 2
 									}
 									if thorough {
